@@ -2,3 +2,5 @@ import PG.Props.C04
 #print axioms PG.C04_class
 #print axioms PG.C04_method
 #print axioms PG.C04_method_frames
+#print axioms PG.C04_cache_class
+#print axioms PG.C04_cache_method
